@@ -114,3 +114,45 @@ func VerifC05DrainQueue(s *DiscoveryServer) map[string]string {
 func VerifC05ShutdownQueue(s *DiscoveryServer) {
 	s.pushQueue.ShutDown()
 }
+
+// VerifC05SetGenerators installs the generator table of a VerifC05QueueServer and the always-true
+// ProxyNeedsPush hook (the field is a configuration point of DiscoveryServer).
+func VerifC05SetGenerators(s *DiscoveryServer, gens map[string]model.XdsResourceGenerator) {
+	s.Generators = gens
+	s.ProxyNeedsPush = func(_ *model.Proxy, req *model.PushRequest) (*model.PushRequest, bool) { return req, true }
+}
+
+// VerifC05HandleQueue dequeues every pending push and, for a connection whose initialization is
+// complete (the Stream loop only serves initialized connections), HANDLES it with the real
+// pushConnection / pushConnectionDelta, then MarkDone - what doSendPushes + Stream do.  Returns, per
+// connection id, the PushVersion of the request that was queued for it.
+func VerifC05HandleQueue(s *DiscoveryServer) (map[string]string, error) {
+	out := map[string]string{}
+	for s.pushQueue.Pending() > 0 {
+		con, req, shutdown := s.pushQueue.Dequeue()
+		if shutdown {
+			break
+		}
+		v := ""
+		if req != nil && req.Push != nil {
+			v = req.Push.PushVersion
+		}
+		out[con.ID()] = v
+		var err error
+		select {
+		case <-con.InitializedCh():
+			ev := &Event{pushRequest: req, done: func() {}}
+			if con.deltaStream != nil {
+				err = s.pushConnectionDelta(con, ev)
+			} else {
+				err = s.pushConnection(con, ev)
+			}
+		default:
+		}
+		s.pushQueue.MarkDone(con)
+		if err != nil {
+			return out, err
+		}
+	}
+	return out, nil
+}
